@@ -45,7 +45,11 @@ func (v *Value) UnmarshalNBT(tagType byte, r nbt.DecoderReader) error {
 			return err
 		}
 
-		v.data = append(v.data[:0], make([]byte, 4+n)...)
+		if n < 0 {
+			return errors.New("byte array len less than 0")
+		}
+
+		v.data = append(v.data[:0], make([]byte, 4+int(n))...)
 		binary.BigEndian.PutUint32(v.data, uint32(n))
 
 		_, err = io.ReadFull(r, v.data[4:])
@@ -58,8 +62,11 @@ func (v *Value) UnmarshalNBT(tagType byte, r nbt.DecoderReader) error {
 		if err != nil {
 			return err
 		}
+		if n < 0 {
+			return errors.New("string length less than 0")
+		}
 
-		v.data = append(v.data[:0], make([]byte, 2+n)...)
+		v.data = append(v.data[:0], make([]byte, 2+int(n))...)
 		binary.BigEndian.PutUint16(v.data, uint16(n))
 
 		_, err = io.ReadFull(r, v.data[2:])
@@ -76,6 +83,9 @@ func (v *Value) UnmarshalNBT(tagType byte, r nbt.DecoderReader) error {
 		length, err := readInt32(r)
 		if err != nil {
 			return err
+		}
+		if length < 0 {
+			return errors.New("list length less than 0")
 		}
 
 		v.list = v.list[:0]
@@ -115,7 +125,11 @@ func (v *Value) UnmarshalNBT(tagType byte, r nbt.DecoderReader) error {
 			return err
 		}
 
-		v.data = append(v.data[:0], make([]byte, 4+n*4)...)
+		if n < 0 {
+			return errors.New("int array len less than 0")
+		}
+
+		v.data = append(v.data[:0], make([]byte, 4+int(n)*4)...)
 		binary.BigEndian.PutUint32(v.data, uint32(n))
 
 		_, err = io.ReadFull(r, v.data[4:])
@@ -129,7 +143,11 @@ func (v *Value) UnmarshalNBT(tagType byte, r nbt.DecoderReader) error {
 			return err
 		}
 
-		v.data = append(v.data[:0], make([]byte, 4+n*8)...)
+		if n < 0 {
+			return errors.New("long array len less than 0")
+		}
+
+		v.data = append(v.data[:0], make([]byte, 4+int(n)*8)...)
 		binary.BigEndian.PutUint32(v.data, uint32(n))
 
 		_, err = io.ReadFull(r, v.data[4:])
